@@ -19,6 +19,12 @@ Engine E2 (exhaustive product), level "exploration", exhaustive over the finite 
                                                     every value op, UPPER/LOWER/TRIM/LTRIM/RTRIM with and without characters,
                                                     cast and uncast operator contexts in the select list, and every boolean
                                                     context as the WHERE clause; reference = the Python list
+  route ROUTE_DOCS (every JSON escape) x texts x     the route of the document into a VARIANT column: SQL literal ('' and \' quote
+        ROUTES x relevant paths x ops                escapes, $$..$$), bound parameter (%s, %(name)s, ?), executemany, session
+                                                    variable (SET doc = '..' then INSERT .. PARSE_JSON($doc) / TRY_PARSE_JSON /
+                                                    PARSE_JSON($doc):path directly), write_pandas of dicts and lists (documents
+                                                    first, after a NULL / a string / a number first row, NULL last, reversed);
+                                                    then the navigation battery on the column
   nest  NEST_DOCS x inner path x inner syntax       nested navigation: OUTER_OP( WRAPPER( INNER_PATH(v) ) OUTER_PATH ), a path
         x NEST_WRAPPERS x outer path x outer        + conversion whose base is itself built from another path (+ conversion)
         syntax x outer op                           of the document: PARSE_JSON / TRY_PARSE_JSON of a string-valued path
@@ -55,6 +61,8 @@ Clauses
   C11.context_uncast  (7) the same over the bare extraction where the operator matches the value's kind
   C11.split               SPLIT gives the list of parts (a JSON array of strings)
   C11.nested          (1,2,7) nested navigation = the composition of the Python navigations
+  C11.route           (1,2,3) whatever the route by which a document reached the column / the engine, it navigates like
+                          the Python document
 
 Not demanded (deliberately left open: Snowflake raises or is not documented unambiguously):
   * casts of strings / containers to NUMBER, INT, FLOAT, BOOLEAN, of booleans to numbers, of numbers to BOOLEAN;
@@ -659,6 +667,8 @@ CLASS_FEATURES: dict = {
     # applied to the inner path (ic) and on top of the outer path (oc), the kind of the inner value, and whether the
     # expected result is a value or NULL (res)
     "C11.nested": ("nb", "w", "ic", "oc", "xkind", "res"),
+    # the route by which the document reached the VARIANT column / the engine; esc = which escapes its text needs
+    "C11.route": ("route", "op", "kind", "esc"),
 }
 
 
@@ -1946,6 +1956,275 @@ def work_fval(item, acc, tier):
     return None
 
 
+
+# ---- the route of the document ----------------------------------------------------------------------------------------------------
+# Every ROUTE_DOCS document (all JSON escapes: \\ \" \n \t \r \/ \uXXXX, raw non-ASCII, a trailing backslash, a backslash
+# followed by a letter, the characters of an escape written out) in each of its JSON texts, through every route into a
+# VARIANT column (or straight into the expression), then the navigation battery. The reference does not change: Python
+# navigation of the document. A raw tab / newline inside a JSON string is not valid JSON and only travels as a Python
+# value (write_pandas).
+ROUTE_DOCS = [
+    {"a": "back\\nslash", "n": 1},
+    {"a": "t\tab", "B": "line\nfeed\r"},
+    {"a": "q\"uo'te", "B": [True, None]},
+    {"a": "é/ü", "zz": {"a": "€"}},
+    {"a": "Str", "n": -1.5},
+    ["s\\", {"a": "\\"}, 1.5],
+    {"a": {"a": ["\t", "\\\\n"]}},
+    {"B": "\u0001 \\u0041 100% ?"},
+    "a\\b",
+]
+ROUTES = [
+    "literal.quote2", "literal.backslash_quote", "literal.dollar", "param.pyformat", "param.pyformat_named", "param.qmark",
+    "executemany.pyformat", "executemany.qmark", "variable.insert", "variable.insert_try", "variable.direct", "variable.direct_try",
+    "write_pandas.docs", "write_pandas.null_first", "write_pandas.string_first", "write_pandas.number_first",
+    "write_pandas.null_last", "write_pandas.reversed", "write_pandas.flat_docs", "write_pandas.flat_null_first",
+]  # fmt: skip
+# flat objects (strings and integers only, differing key sets): the shape an engine may take for a MAP / STRUCT column
+ROUTE_FLAT_DOCS = [{"a": "back\\nslash", "n": 1}, {"B": "t\tab", "zz": 2}, {"a": 30, "B": 4}]
+ROUTE_OPS = {"quick": ["raw", "varchar"], "thorough": ["raw", "varchar", "string", "upper", "lower", "trim", "array_size"]}
+
+
+def route_texts(doc):
+    """the JSON texts a document travels as: \\uXXXX escapes, raw non-ASCII characters, and (if it has one) \\/ for /"""
+    out = [json.dumps(doc, separators=(",", ":")), json.dumps(doc, ensure_ascii=False)]
+    if "/" in out[0]:
+        out.append(out[0].replace("/", "\\/"))
+    seen, res = set(), []
+    for t in out:
+        if t not in seen:
+            seen.add(t)
+            res.append(t)
+    return res
+
+
+def route_rows(route):
+    """[(document, text or None)] in row order (row id = position); None documents are rows without a document"""
+    if route.startswith("write_pandas"):
+        docs = [(d, None) for d in ROUTE_DOCS if isinstance(d, (dict, list))]
+        arr = route.split(".")[1]
+        if arr.startswith("flat"):
+            flat = [(d, None) for d in ROUTE_FLAT_DOCS]
+            return [(J.MISSING, None)] + flat if arr == "flat_null_first" else flat
+        if arr == "null_first":
+            return [(J.MISSING, None)] + docs
+        if arr == "string_first":
+            return [(J.UNDEMANDED, "1")] + docs  # a string cell: what it becomes in a VARIANT column is not demanded
+        if arr == "number_first":
+            return [(J.UNDEMANDED, 1)] + docs
+        if arr == "null_last":
+            return docs + [(J.MISSING, None)]
+        if arr == "reversed":
+            return docs[::-1]
+        return docs
+    return [(d, t) for d in ROUTE_DOCS for t in route_texts(d)]
+
+
+def _sqlstr_bq(s: str) -> str:
+    """single-quoted literal with the quote escaped by a backslash"""
+    return "'" + s.replace("\\", "\\\\").replace("'", "\\'") + "'"
+
+
+def esc_feature(doc) -> str:
+    """which characters of the document's strings need care on the way: b(ackslash) c(ontrol) q(uote) u(non-ASCII)"""
+    text = json.dumps(doc, ensure_ascii=False)
+    vals = "".join(x for x in _strings(doc))
+    f = ""
+    f += "b" if "\\" in vals else ""
+    f += "c" if any(ord(ch) < 32 for ch in vals) else ""
+    f += "q" if ('"' in vals or "'" in vals) else ""
+    f += "u" if any(ord(ch) > 126 for ch in text) else ""
+    return f or "-"
+
+
+def _strings(d):
+    if isinstance(d, str):
+        yield d
+    elif isinstance(d, list):
+        for x in d:
+            yield from _strings(x)
+    elif isinstance(d, dict):
+        for x in d.values():
+            yield from _strings(x)
+
+
+def route_load(fs, route, table, rows):
+    """carry the rows into `table` (id int, v variant) by `route` on a connection of its own; returns the connection"""
+    import snowflake.connector
+
+    style = "qmark" if route.endswith("qmark") else "pyformat"
+    old = snowflake.connector.paramstyle
+    snowflake.connector.paramstyle = style
+    try:
+        conn = fs.connect(database="db1", schema="s1")
+    finally:
+        snowflake.connector.paramstyle = old
+    cur = conn.cursor()
+    cur.execute(f"create or replace table {table} (id int, v variant)")
+    if route.startswith("write_pandas"):
+        import fakesnow.pandas_tools
+        import pandas as pd
+
+        cells = [None if d is J.MISSING else t if d is J.UNDEMANDED else d for d, t in rows]
+        df = pd.DataFrame({"ID": list(range(len(rows))), "V": pd.Series(cells, dtype="object")})
+        fakesnow.pandas_tools.write_pandas(conn, df, table.upper())
+        return conn
+    ph = "?" if style == "qmark" else "%s"
+    if route.startswith("executemany"):
+        cur.executemany(f"insert into {table} select {ph}, parse_json({ph})", [(n, t) for n, (_d, t) in enumerate(rows)])
+        return conn
+    for n, (_d, t) in enumerate(rows):
+        if route == "literal.quote2":
+            cur.execute(f"insert into {table} select {n}, parse_json({_sqlstr(t)})")
+        elif route == "literal.backslash_quote":
+            cur.execute(f"insert into {table} select {n}, parse_json({_sqlstr_bq(t)})")
+        elif route == "literal.dollar":
+            cur.execute(f"insert into {table} select {n}, parse_json($${t}$$)")
+        elif route in ("param.pyformat", "param.qmark"):
+            cur.execute(f"insert into {table} select {ph}, parse_json({ph})", (n, t))
+        elif route == "param.pyformat_named":
+            cur.execute(f"insert into {table} select %(i)s, parse_json(%(v)s)", {"i": n, "v": t})
+        elif route in ("variable.insert", "variable.insert_try"):
+            cur.execute(f"set doc = {_sqlstr(t)}")
+            fn = "try_parse_json" if route.endswith("try") else "parse_json"
+            cur.execute(f"insert into {table} select {n}, {fn}($doc)")
+        else:
+            raise ValueError(route)
+    return conn
+
+
+def route_exprs(tier, docs):
+    """[(path, syntax, form, sql over {S}, op)] for every relevant path of any of the documents"""
+    paths = []
+    for d in docs:
+        if d is J.MISSING or d is J.UNDEMANDED:
+            continue
+        for p_ in relevant_paths(d):
+            if p_ not in paths:
+                paths.append(p_)
+    out = []
+    for p_ in paths:
+        for sy, sql, form in renderings("{S}", p_, ["colon", "bracket"]):
+            for o in ROUTE_OPS[tier]:
+                if not p_ and o not in ("raw", "array_size"):
+                    continue  # text conversions of the bare column: the un-nested 'root' shape (C11.text fco=root)
+                out.append((p_, sy, form, sql, o))
+    return out
+
+
+def _route_judge(acc, route, docs, combos, per_expr, sqls, setup_hint):
+    """per_expr[n] = {row: ('ok', values) | ('err', ..)}; verdict per (op, kind of the navigated value, escapes)"""
+    for (p_, sy, form, _sql, o), per_id, sql in zip(combos, per_expr, sqls):
+        stats: dict = {}
+        sig = []
+        for i, d in enumerate(docs):
+            if d is J.UNDEMANDED or i not in per_id:
+                continue
+            tgt = J.navigate(d, p_)
+            exp = expected(o, tgt)
+            if exp is J.UNDEMANDED:
+                continue
+            rr = per_id[i]
+            sig.append((i, rr[0], rr[1]))
+            if exp is not None and exp is not J.MISSING:
+                acc.nontrivial(("route", route, i, p_, sy, o))
+            fk = (("esc", "-" if d is J.MISSING else esc_feature(d)), ("kind", J.kind_of(tgt)), ("op", o), ("route", route))
+            st = stats.setdefault(fk, [0, 0, None])
+            st[0] += 1
+            if not _judge(OPS[o]["mode"], exp, rr):
+                st[1] += 1
+                if st[2] is None:
+                    st[2] = (
+                        {"sql": sql, "route": route, "document": None if d is J.MISSING else d, "expected": repr(exp), "observed": _observed(rr)},
+                        {"route": route, "row": i, "steps": list(p_), "syntax": sy, "op": o},
+                    )
+            acc.count("evaluations")
+        acc.obs(("route", route, p_, sy, o, sig))
+        for fk in sorted(stats):
+            n, nfail, example = stats[fk]
+            acc.outcome(("route", route, fk, "fail" if nfail else "ok"))
+            _record(acc, "C11.route", dict(fk), n, nfail, example)
+
+
+def route_check(fs, acc, tier, route, only=None):
+    """run one route (only = (row, steps, syntax, op) for a replay); returns the observations of the last expression"""
+    rows = route_rows(route)
+    docs = [d for d, _t in rows]
+    direct = route.startswith("variable.direct")
+    table = "rt_" + route.replace(".", "_")
+    combos = route_exprs(tier, docs)
+    if only is not None:
+        combos = [c for c in combos if (list(c[0]), c[1], c[4]) == (only[1], only[2], only[3])]
+    last = None
+    if direct:
+        # the document is used straight from the variable: SELECT <battery over PARSE_JSON($doc)>, one document at a time
+        conn = fs.connect(database="db1", schema="s1")
+        cur = conn.cursor()
+        fn = "try_parse_json($doc)" if route.endswith("try") else "parse_json($doc)"
+        per_expr = [dict() for _ in combos]
+        sqls = [f"set doc = '<text>'; select {OPS[c[4]]['tpl'].format(x=c[3].format(S=fn))}" for c in combos]
+        for i, (d, t) in enumerate(rows):
+            if only is not None and i != only[0]:
+                continue
+            try:
+                cur.execute(f"set doc = {_sqlstr(t)}")
+            except Exception as e:  # noqa: BLE001
+                for pe in per_expr:
+                    pe[i] = ("err", _exc_name(e), str(e).split("\n")[0][:200])
+                continue
+            mine = [n for n, c in enumerate(combos) if c[0] in relevant_paths(d)]
+            res = []
+            for ch in _chunks(mine, BATCH):
+                res += run_exprs(cur, acc, [OPS[combos[n][4]]["tpl"].format(x=combos[n][3].format(S=fn)) for n in ch], [], "")
+            for n, r in zip(mine, res):
+                per_expr[n][i] = ("ok", tuple(v for _p, v in r[1])) if r[0] == "ok" else r
+                last = per_expr[n][i]
+        _route_judge(acc, route, docs, combos, per_expr, sqls, None)
+        return last
+    try:
+        conn = route_load(fs, route, table, rows)
+    except Exception as e:  # noqa: BLE001  the route itself rejects the documents
+        err = ("err", _exc_name(e), str(e).split("\n")[0][:200])
+        acc.obs(("route", route, "load", err))
+        acc.count("evaluations")
+        example = ({"sql": f"load of {len(rows)} documents by {route}", "route": route, "expected": "'loaded'", "observed": _observed(err)},
+                   {"route": route, "row": 0, "steps": [], "syntax": "colon", "op": "load"})  # fmt: skip
+        _record(acc, "C11.route", {"route": route, "op": "load", "kind": "any", "esc": "any"}, 1, 1, example)
+        return err
+    cur = conn.cursor()
+    try:
+        texts = [OPS[c[4]]["tpl"].format(x=c[3].format(S="v")) for c in combos]
+        res = []
+        for ch in _chunks(texts, BATCH):
+            res += run_exprs(cur, acc, ch, ["id"], f" from {table}")
+        per_expr = []
+        for r in res:
+            if r[0] == "ok":
+                got = _by_id(r[1])
+                per_expr.append({i: ("ok", got.get(i, ())) for i in range(len(rows))})
+            else:
+                per_expr.append({i: r for i in range(len(rows))})
+        # the row count: every document exactly once
+        _route_judge(acc, route, docs, combos, per_expr, [f"select {t} from {table}" for t in texts], None)
+        if per_expr:
+            last = per_expr[-1].get(only[0]) if only is not None else None
+    finally:
+        cur.execute(f"drop table if exists {table}")
+    return last
+
+
+def work_route(item, acc, tier):
+    """item = ('route', route id)"""
+    _, route = item
+    w = _world(tier)
+    route_check(w["fs"], acc, tier, route)
+    if route in ("variable.insert", "write_pandas.null_first"):
+        rows = route_rows(route)
+        acc.sample({"mode": "route", "route": route, "rows": len(rows), "some_rows": core.jsonable([(None if d is J.MISSING else d, t) for d, t in rows[:3]]),
+                    "expressions": len(route_exprs(tier, [d for d, _t in rows]))})  # fmt: skip
+    return None
+
+
 def work(item, acc, tier):
     kind = item[0]
     if kind == "col":
@@ -1964,6 +2243,8 @@ def work(item, acc, tier):
         return work_nestlit(item, acc, tier)
     if kind == "fval":
         return work_fval(item, acc, tier)
+    if kind == "route":
+        return work_route(item, acc, tier)
     raise core.HarnessError(f"unknown item {item!r}")
 
 
@@ -1978,6 +2259,7 @@ def items_for(tier):
     items += [("nest", wi, pi) for wi in range(len(NEST_WRAPPERS)) for pi in range(len(NEST_P1[tier]))]
     items += [("nestlit", di) for di in range(len(nest_lit_docs_for(tier)))]
     items += [("fval", ii, vi) for ii in range(len(FVAL_INPUTS)) for vi in range(len(FVAL_VARIANTS))]
+    items += [("route", r) for r in ROUTES]
     return items
 
 
@@ -2025,6 +2307,9 @@ def run(ctx: core.Ctx):
             "flatten_value_variants": [x[0] for x in FVAL_VARIANTS],
             "flatten_value_elements": [canon(x) for x in (FVAL_ELEMS if tier == "thorough" else FVAL_ELEMS_QUICK)],
             "null_run_patterns": NULLRUN_PATTERNS[tier],
+            "routes": ROUTES,
+            "route_documents": [canon(d) for d in ROUTE_DOCS],
+            "route_ops": ROUTE_OPS[tier],
             "atoms": [canon(a) for a in (ATOMS if tier == "thorough" else ATOMS_QUICK)],
             "steps": [str(x) for x in STEPS[tier]],
             "max_path_length": MAXLEN[tier] if tier == "thorough" else "2 (+ 11 listed paths of length 3)",
@@ -2068,6 +2353,17 @@ def check_payload(r):
 
 def replay(payload):
     r = payload["replay"]
+    if "route" in r:
+        acc = core.Acc()
+        fs, _conn = _instance()
+        got = route_check(fs, acc, "thorough", r["route"], only=(r["row"], r["steps"], r["syntax"], r["op"]))
+        print("route:   ", r["route"], "row", r["row"], "path", r["steps"], r["syntax"], r["op"])
+        print("document:", json.dumps(payload["detail"].get("document")))
+        print("expected:", payload["detail"].get("expected"))
+        print("observed:", got)
+        bad = bool(acc.viol)
+        print("verdict: ", f"{payload.get('clause')}/{payload.get('class')} violated" if bad else "ok")
+        return bad
     for s in r["setup"]:
         print("setup:   ", s[:300])
     print("sql:     ", r["sql"])
